@@ -5,23 +5,33 @@
     is what [accrued_atomics] computes; [sum_acc r] / [sum_bal r] are the sums over all holder
     records.
 
-    Main results of PART 1 (this file continues with PART 2.., see the section headers):
+    Main results (C14):
     - [settle_iff], [accrued_atomics_iff]: the 256-bit decimal pipeline computes exactly [hacc]
-      and fails exactly on its four guards.
+      and fails exactly on its guards.
     - [rinc_iff], [rdec_iff], [rclaim_iff], [rupdate_iff]: exact characterisation (guards, new
       state, emitted messages) of the four state-changing handlers.
     - [RCore], [RInv]: the invariant; [rinv_instantiate], [reward_execute_rcore],
       [reward_execute_rinv], [rinv_bank_increase]: established and preserved.
+    - [holders_sum_le], [claimable_sum_le]: the invariant's sums bound the sum over any set of
+      distinct holders (atomics / whole claimable units).
     - [inc_succeeds], [dec_succeeds], [claim_succeeds_exact], [claim_fails_below_unit],
-      [update_succeeds]: under E1 magnitudes no 128/256-bit guard is hit.
+      [claim_succeeds_iff], [update_succeeds]: under E1 magnitudes no 128/256-bit guard is hit;
+      a claim succeeds iff a whole unit accrued and pays exactly the whole part.
     - [update_dust_exact], [claim_dust_exact], [settle_dust_exact]: what each handler does to the
-      stranded amount [prev*D - sum_acc].
-    - ghost accounting: [creach], [GInv], [creach_ginv], [claimed_le_delivered],
-      [claimed_plus_accrued_le_delivered], [stranded_dust], [nothing_stranded],
-      [creach_update_succeeds].
-    - C15: [accrual_step], [accrual_rounding], [settle_preserves_acc], [other_holder_untouched],
-      [late_tokens_earn_nothing], [ops_commute], [op_outcome_independent], [hacc_linear],
-      [split_*]. *)
+      stranded amount [dust r = prev*D - sum_acc].
+    - ghost accounting: [cstep], [creach], [E1c], [GInv], [ginv_init], [creach_ginv],
+      [claimed_le_delivered], [stranded_dust], [creach_update_succeeds],
+      [creach_claim_succeeds], [creach_settle_succeeds].
+    Main results (C15):
+    - [accrual_step], [accrual_rounding]: one update gives every holder balance * increment.
+    - [inc_preserves_acc], [dec_preserves_acc], [other_holder_untouched],
+      [late_tokens_earn_nothing]: settling keeps past rewards; others untouched.
+    - [ops_commute], [op_outcome_independent]: operations about distinct holders commute and do
+      not influence each other's outcome.
+    - [hacc_linear], [split_rel_inc], [split_rel_dec], [split_payout], [split_sim_acc],
+      [split_sim_update], [split_sim_inc], [split_sim_dec], [split_sim_other]: one account or two.
+    Non-vacuity: [rinv_nonvacuous], [claim_nonvacuous], [update_nonvacuous],
+      [creach_nonvacuous], [ops_commute_nonvacuous], [split_sim_nonvacuous]. *)
 From Krp Require Import Tactics Prelude Fixed FMap Types Env Reward Inv.
 Open Scope N_scope.
 (* division / modulo are kept as atoms for [lia] in this file; the facts about them are supplied
@@ -1391,6 +1401,27 @@ Example claim_nonvacuous :
   rw_prev (claim_state r_ex 20) = 6.
 Proof. split; [vm_compute; reflexivity | split; vm_compute; reflexivity]. Qed.
 
+(** the index update that produced [r_ex]: 10 coins over 7 bSei (hypotheses of
+    [update_succeeds] with G = 0, of [accrual_step], [update_dust_exact]) *)
+Definition r_pre : reward :=
+  mkReward 10 A_hub uusd A_swap [uatom] 0 7 0 [(20, mkHolder 3 0 0); (21, mkHolder 4 0 0)] 10.
+
+Example update_nonvacuous :
+  RCore r_pre /\ query_dispatcher_addr (w_ex 10) (rw_hub r_pre) = Some A_disp /\
+  rw_prev r_pre <= bal (w_env (w_ex 10)) A_reward (rw_denom r_pre) /\
+  rw_gi r_pre <= 0 * D /\ 0 + (bal (w_env (w_ex 10)) A_reward (rw_denom r_pre) - rw_prev r_pre) <= LIM /\
+  rw_total r_pre <> 0 /\
+  reward_execute (w_ex 10) r_pre A_reward A_disp RUpdateIndex = Some (r_ex, []) /\
+  index_step r_pre 10 = 1428571428571428571 /\ (10 * D) mod 7 = 3.
+Proof.
+  split; [unfold RCore; split; [le_compute|]; split; [reflexivity|]; split|].
+  - repeat constructor; le_compute.
+  - repeat constructor; cbn; intuition discriminate.
+  - split; [reflexivity|]. split; [le_compute|]. split; [le_compute|]. split; [le_compute|].
+    split; [intro X; discriminate X|]. split; [vm_compute; reflexivity|].
+    split; vm_compute; reflexivity.
+Qed.
+
 (** a five-step contract-level trace: two increases, a delivery, an index update, a claim *)
 Definition cexec (c : cstate) (w : world) (self s : addr) (m : reward_msg) : cstate :=
   let '(r, bank, g) := c in
@@ -1476,3 +1507,6 @@ Proof.
   - intros b H1 H2 H3. unfold holder_of, r_one, r_two. cbn [rw_holders get].
     apply N.eqb_neq in H1, H2, H3. unfold eqbA. rewrite H1, H2, H3. reflexivity.
 Qed.
+
+(* restore the development's default arithmetic hook for files loaded after this one *)
+Ltac Zify.zify_post_hook ::= Z.div_mod_to_equations.
